@@ -78,6 +78,15 @@ REG = {
         'when coap_send() reports failure, that release callbacks ran once per body, and that a canary exchange run afterwards with memory available - on the same endpoints when they '
         'survived - succeeds. A crash or sanitizer report in a run is a violation of that run (the driver restarts after it).',
    note='Allocations inside GnuTLS and libc are not failed. Thorough adds sampled pairs of failing indices.'),
+ 'C19': dict(module='dtls', engine='dtls', category='model_checking', design_ref='4/C19',
+   technique='TLA+ spec Gate (credential match; TLC closed model of the delay-queue gate) + TLC judging real DTLS/PSK client-server executions on the simulated network',
+   text='Gate.tla states when PSK credentials let a handshake complete (identity known to the server, equal keys, hint accepted); MC_Gate model-checks the send gate (delay until established, '
+        'flush in order, NACK on failure) for matching and mismatching credentials. A real libcoap DTLS client and server (GnuTLS) run on the simulator with requests submitted during the '
+        'handshake: keys equal / shorter / longer / prefix / one character off, identities known / unknown / near misses, identity check on and off, hint rejected, session released at '
+        'various times, cleartext CoAP injected at the DTLS endpoint from a stranger and from the client address, loss of each early datagram. TLC requires: no request at the server handler '
+        'and no response at the client handler unless the configuration matches; no CoAP header in clear on the wire; with a mismatch every queued Confirmable request is reported by exactly '
+        'one NACK and not only at context teardown; with a match and no disturbance the queued requests are delivered in order exactly once and answered exactly once.',
+   note='DTLS/PSK over UDP with GnuTLS only; TLS over TCP, PKI and SNI are not exercised. Under loss only safety is asserted (GnuTLS retransmission runs on the real clock).'),
  'C20': dict(module='wkc', engine='wkc', category='model_checking', design_ref='4/C20',
    technique='TLA+ operators for RFC 6690 listing/filter/window (TLC) + TLC judging every window, listing and block-wise GET of the real server',
    text='Wkc.tla defines Link, Listing(table, filter) with exact / prefix-* / space-separated-token matching on href, rt, if, rel and attribute values, '
